@@ -250,6 +250,14 @@ func streamEngine(t *testing.T, o *Out, p EngProfile) {
 			// the Manager/Traverser interface where the k-th-call faults are injected. The row still
 			// matches every predicate, so the fault-free answer is the one given before the damage.
 			extraCol = env.poisonedRuns(c, r)
+			if !env.storeIntact() {
+				// the damage could not be undone (locked table): store the case again
+				if err := env.prepare(c, nil); err != nil {
+					t.Fatalf("prepare after poisoned runs: %v", err)
+				}
+				extraCol = ""
+				o.Count("poison:store-reloaded")
+			}
 			base := emit(c, "g", false)
 			extraCol = ""
 			max := int(base)
